@@ -17,7 +17,7 @@ import coqemit as E
 
 ID = "C04"
 PROPS = "Props/C04.v"
-IMPORTS = ("From PV Require Import Lib.Common Model.C04_Gmod Model.C04_GS.\n"
+IMPORTS = ("From PV Require Import Lib.Common Model.C04_Gmod Model.C04_GS Gen.C04_Kernel.\n"
            "Import String.StringSyntax. Delimit Scope string_scope with string.")
 SHARD = 12
 SHARD_TIMEOUT = 600
@@ -32,14 +32,22 @@ LEVEL_TEXT = ("Coq theorems over an exact-rational executable model of the genom
               "normal-equation residual is bounded by atol*sum_{j>i}|A_ij| whenever the loop stops before maxiter. The model is tied to the code by "
               "evaluating it inside Coq against the implementation's outputs (exact equality for the linear part and counts; variances and Bulmer "
               "ratios within 2^-30 RELATIVE, so that a model value of exactly zero or NaN demands exactly zero or NaN; breeding value matrices "
-              "within 2^-30 of the largest magnitude of their trait column; 2^-30(1+|x|) for scores and solver output) on generated models, genotype inputs in three representations, permutations and partitions")
+              "within 2^-30 of the largest magnitude of their trait column; 2^-30(1+|x|) for scores and solver output) on generated models, genotype inputs in three representations, permutations and partitions. "
+              "The expressions on which these theorems turn (sign tests, which allele/count is taken, exact zero tests, quotients, the dominance indicator and "
+              "block order, which effects enter which product, 1 - SSE/SST, the genic-variance formula, the Gauss-Seidel update, movement test and loop guard, "
+              "the polymorphism mask, the ridge quotient: 111 definitions) are regenerated from the source on every run (Gen/C04_Kernel.v), proved equal to the "
+              "hand model by reflexivity and the property's clauses are re-proved about the generated definitions, so a changed expression fails the build "
+              "whatever the sampled cases exercise; model objects are also obtained through copy/deepcopy/setters/in-place updates of used objects, every "
+              "returned array is overwritten after it is recorded and calls are repeated (a result is a function of the state at the call)")
 LEVEL_NOTE = ("trusted: Coq kernel + vm_compute (no axioms: Print Assumptions reports 'Closed under the global context' for every theorem); "
               "NOT modelled: Nelder-Mead/eigh of rrBLUP_ML0 (the ridge parameter varE/varU is read back from the implementation and the clauses of "
               "the property are evaluated exactly in Q on the implementation's (beta, u)); the standardisation inside "
               "DenseBreedingValueMatrix.from_numpy is observed only through unscale()/location/labels; binary64 rounding is not modelled (inputs on "
               "dyadic grids, also after scaling a trait by a power of two, make the linear part exact; the other statistics are compared within a "
               "2^-30 relative / column-relative / 2^-30(1+|x|) tolerance); theorems are about the Gallina model, "
-              "the tie to the code is differential on generated inputs")
+              "the tie to the code is differential on generated inputs, plus the regenerated kernel expressions (harness/translate/c04_kernel.py is trusted: it maps "
+              "numpy.where/logical_and/divide, `x.sum(0)`, `A @ B`, numpy.concatenate to their element-wise / list meaning and compares the statements it does "
+              "not translate verbatim; it fails closed on anything else, e.g. numpy.isclose)")
 TECHNIQUE = "Coq proof over an executable exact-rational model; in-Coq vm_compute correspondence with the implementation"
 RULE = ("three kinds of case from one PRNG. lin: class in {additive, additive+dominance, rrBLUPModel0 as container, DenseLinearGenomicModel via a "
         "stub subclass}, beta (1-4 fixed effects) / u_misc (0-2) / u_a / u_d on the grid k/8 with exact zeros, zero rows and all-zero matrices, 1-3 traits, "
@@ -53,9 +61,20 @@ RULE = ("three kinds of case from one PRNG. lin: class in {additive, additive+do
         "{0, 2^-20..1, 1e-8}, maxiter 0-6. fit: rrBLUPModel0.fit_numpy/fit (ndarray, GenotypeMatrix, BreedingValueMatrix inputs) on 3-9 records x 1-4 "
         "markers, 1-2 traits, monomorphic columns at 0/1/2, duplicated polymorphic markers, traits determined exactly by a marker, 20% with the "
         "responses times 2^-12 or 2^8. "
+        "Lifecycle: every lin case obtains its model through a route in {constructor, copy.copy, copy.deepcopy, .copy(), .deepcopy() (the original is "
+        "overwritten in place afterwards), property setters on a decoy model that has been used, in-place writes into the arrays of a used decoy model (the "
+        "matrix objects are then also built on other dosages, used, and overwritten in place)}; 40% of the cases pass non-default dtype arguments to the "
+        "allele statistics (result dtype checked); var_a_numpy/bulmer_numpy are called with explicit frequencies; every returned array is overwritten "
+        "after recording and six calls are repeated at the end; inputs (coefficients, trait names, genotype matrices, taxon labels and groups, X, Y, Z) "
+        "are compared with pristine copies; the read-only classes must refuse fit/fit_numpy; shape bookkeeping (nexplan*/nparam*/ntrait) is checked; "
+        "special cases with 130 (300 in thorough) tetraploid taxa (allele counts > 255) and 260 (300) markers. gs: also keyword and default arguments, "
+        "the result overwritten and the call repeated. fit: also method/model_name/hyperparams keywords, covariates given, copies of the fitted model, "
+        "rrBLUP_ML0 with explicit gsatol/gsmaxiter re-run in Coq. Entry points: every public class/function/method/property/parameter list of the six "
+        "anchored modules is enumerated at run time and must be classified (driven / skipped with a reason), else the check fails. "
         "non-trivial = lin: >= 2 taxa, a polymorphic marker, at least two of the three effect signs, non-identity permutation; gs: >= 2 unknowns, "
         ">= 2 sweeps allowed, atol > 0, b != 0; fit: a polymorphic marker and n > p_polymorphic. distinct by SHA-256 of the case")
-TRUSTED = ["scipy.optimize.minimize (Nelder-Mead) and numpy.linalg.eigh inside rrBLUP_ML0 are not modelled: varE, varU are taken from the implementation",
+TRUSTED = ["harness/translate/c04_kernel.py (ast -> Gallina for the kernel expressions; fail closed)",
+           "scipy.optimize.minimize (Nelder-Mead) and numpy.linalg.eigh inside rrBLUP_ML0 are not modelled: varE, varU are taken from the implementation",
            "numpy float64 matmul/sum on dyadic-grid inputs (times a power of two per trait) is exact (regime E); var/std/division are compared within 2^-30 relative or 2^-30(1+|x|) (regime T)",
            "DenseLinearGenomicModel is abstract in /repo: it is exercised through a subclass created by the harness that only empties __abstractmethods__",
            "classification of C04-gs-maxiter uses a reference float Gauss-Seidel loop in the harness to decide whether the specified algorithm itself needs more than 1000 sweeps"]
@@ -136,6 +155,68 @@ def _build_model(case):
         return _stub_L()(beta=beta, u=u, trait=trait)
     raise ValueError(c)
 
+ROUTES = ["ctor", "ctor", "copy", "deepcopy", "copy_m", "deepcopy_m", "setters", "inplace"]
+
+def _decoy(case):
+    """a model of the same class and shapes whose every coefficient differs from the case's (x -> 1.5 - 2x), other trait names"""
+    d = dict(case)
+    for k in ("beta", "u_a", "u_misc", "u_d"):
+        if case.get(k): d[k] = [[1.5 - 2.0 * x for x in r] for r in case[k]]
+    if case["trait"] is not None: d["trait"] = ["decoy%d" % i for i in range(len(case["trait"]))]
+    return d
+
+def _scribble_model(m):
+    """overwrite every coefficient array and the trait names of a model in place"""
+    for nm in ("beta", "u_misc", "u_a", "u_d"):
+        a = getattr(m, nm, None)
+        if isinstance(a, numpy.ndarray) and a.size: a[...] = -77.25
+    if type(m).__name__ == "DenseLinearGenomicModelStub" and m.u.size: m.u[...] = -77.25
+    if m.trait is not None and len(m.trait): m.trait[...] = "scribbled"
+
+def _obtain_model(case, warm=None):
+    """the model of the case, obtained through one of the library's own routes (case["route"]):
+    ctor; copy.copy / copy.deepcopy / .copy() / .deepcopy() of a model that is overwritten in place afterwards; the property setters
+    on a decoy model; in-place writes into the arrays of a decoy model after the decoy has been used (warm: callable(model))"""
+    import copy as _copy
+    route = case.get("route", "ctor")
+    if route == "ctor":
+        return _build_model(case)
+    if route in ("copy", "deepcopy", "copy_m", "deepcopy_m"):
+        m0 = _build_model(case)
+        if route in ("copy_m", "deepcopy_m") and case["cls"] == "L":
+            route = route[:-2]                  # the abstract base class has no .copy()/.deepcopy() methods
+        m = {"copy": _copy.copy, "deepcopy": _copy.deepcopy, "copy_m": lambda x: x.copy(), "deepcopy_m": lambda x: x.deepcopy()}[route](m0)
+        if type(m) is not type(m0): raise AssertionError("copy changed the class: %s" % type(m).__name__)
+        _scribble_model(m0)
+        return m
+    t = len(case["beta"][0])
+    m = _build_model(_decoy(case))
+    if warm is not None: warm(m)
+    beta = _mk2(case["beta"], t); u_a = _mk2(case["u_a"], t)
+    u_misc = None if case["u_misc"] is None else _mk2(case["u_misc"], t)
+    u_d = None if case.get("u_d") is None else _mk2(case["u_d"], t)
+    trait = None if case["trait"] is None else numpy.array(case["trait"], dtype=object)
+    if route == "setters":
+        m.beta = beta
+        if case["cls"] == "L":
+            m.u = u_a if u_misc is None else numpy.concatenate([u_misc, u_a], axis=0)
+        else:
+            m.u_misc = u_misc; m.u_a = u_a
+            if case["cls"] == "AD": m.u_d = u_d
+        m.trait = trait
+        return m
+    if route == "inplace":
+        m.beta[...] = beta
+        if case["cls"] == "L":
+            m.u[...] = u_a if u_misc is None else numpy.concatenate([u_misc, u_a], axis=0)
+        else:
+            if u_misc is not None and u_misc.size: m.u_misc[...] = u_misc
+            m.u_a[...] = u_a
+            if case["cls"] == "AD": m.u_d[...] = (u_d if u_d is not None else 0.0)
+        if trait is not None: m.trait[...] = trait
+        return m
+    raise ValueError(route)
+
 def _build_gt(case, fmt, perm=None):
     from pybrops.popgen.gmat.DenseGenotypeMatrix import DenseGenotypeMatrix
     from pybrops.popgen.gmat.DensePhasedGenotypeMatrix import DensePhasedGenotypeMatrix
@@ -160,8 +241,37 @@ COUNTS = ["facount", "fafreq", "faavail", "fafixed", "fapoly", "nafixed", "napol
 
 L_COUNTS = ["facount", "fafreq", "faavail", "fafixed", "dacount", "dafreq", "daavail", "dafixed"]
 
+DEFAULT_DTYPE = {"count": "int64", "freq": "float64", "flag": "bool"}
+
+def _kind_of(f):
+    return "count" if "count" in f else ("freq" if "freq" in f else "flag")
+
+def _scribble(r):
+    """overwrite a returned array / the arrays of a returned breeding value matrix in place: a later call must not see it"""
+    try:
+        if isinstance(r, numpy.ndarray):
+            if r.flags.writeable and r.size: r[...] = (True if r.dtype == bool else 113)
+        elif hasattr(r, "mat"):
+            if r.mat.size: r.mat[...] = 113.0
+            if r.location.size: r.location[...] = 113.0
+            if r.scale.size: r.scale[...] = 113.0
+    except Exception:
+        pass
+
+def _call(f, conv):
+    """call, convert to the JSON-able observable, then scribble over the returned object"""
+    try:
+        r = f()
+        out = conv(r)
+    except Exception as e:                       # an exception is an observable
+        return {"exc": type(e).__name__}
+    _scribble(r)
+    return out
+
 def _run_fmt(case, m, gt, fmt, perm=None):
-    """call every public prediction/variance/statistic method of the model on one genotype representation"""
+    """call every public prediction/variance/statistic method of the model on one genotype representation; every returned array
+    is overwritten in place right after it has been recorded, a few calls are repeated at the end (R["stable"]), and the arrays
+    handed in are compared with pristine copies (R["inputs_unchanged"])"""
     from pybrops.popgen.bvmat.DenseBreedingValueMatrix import DenseBreedingValueMatrix
     n = len(case["dos"]); p = len(case["u_a"]); t = len(case["beta"][0]); q = len(case["beta"])
     pm = 0 if case["u_misc"] is None else len(case["u_misc"])
@@ -175,53 +285,104 @@ def _run_fmt(case, m, gt, fmt, perm=None):
     kwd = kw if case["cls"] == "AD" else {}       # gegv/predict/score/var_G of the dominance model take the ploidy of a raw array
     R = {}
     with numpy.errstate(all="ignore"):
-        R["gebv_numpy"] = _try(lambda: _hx(m.gebv_numpy(dos)))
-        R["gebv"] = _try(lambda: _bv(m.gebv(gt)))
+        R["gebv_numpy"] = _call(lambda: m.gebv_numpy(dos), _hx)
+        R["gebv"] = _call(lambda: m.gebv(gt), _bv)
         if case["cls"] != "L":
             if case["cls"] == "AD":
                 het = (dos != 0) & (dos != case["ploidy"])
                 Zg = numpy.concatenate([dos, het], axis=1)
             else:
                 Zg = dos
-            R["gegv_numpy"] = _try(lambda: _hx(m.gegv_numpy(Zg)))
-            R["gegv"] = _try(lambda: _bv(m.gegv(gt, **kwd)))
+            R["gegv_numpy"] = _call(lambda: m.gegv_numpy(Zg), _hx)
+            R["gegv"] = _call(lambda: m.gegv(gt, **kwd), _bv)
         else:
             Zg = dos
         Zfull = numpy.concatenate([Zm, Zg], axis=1)
-        R["predict_numpy"] = _try(lambda: _hx(m.predict_numpy(X, Zfull)))
-        R["predict"] = _try(lambda: _bv(m.predict(X, gt, **kwd)))
-        R["score_numpy"] = _try(lambda: _hx(m.score_numpy(Y, X, Zfull)))
-        R["score"] = _try(lambda: _hx(m.score(Y, X, gt, **kwd)))
-        R["score_bv"] = _try(lambda: _hx(m.score(DenseBreedingValueMatrix.from_numpy(Y), X, gt, **kwd)))
-        R["var_A"] = _try(lambda: _hx(m.var_A(gt)))
-        R["var_G"] = _try(lambda: _hx(m.var_G(gt, **kwd)))
-        R["var_a"] = _try(lambda: _hx(m.var_a(gt, **kw)))
-        R["bulmer"] = _try(lambda: _hx(m.bulmer(gt, **kw)))
-        R["var_A_numpy"] = _try(lambda: _hx(m.var_A_numpy(dos)))
-        R["var_G_numpy"] = _try(lambda: _hx(m.var_G_numpy(Zg)))
+        pristine = [a.copy() for a in (X, Zm, Y, dos, Zg, Zfull)]
+        R["predict_numpy"] = _call(lambda: m.predict_numpy(X, Zfull), _hx)
+        R["predict"] = _call(lambda: m.predict(X, gt, **kwd), _bv)
+        R["score_numpy"] = _call(lambda: m.score_numpy(Y, X, Zfull), _hx)
+        R["score"] = _call(lambda: m.score(Y, X, gt, **kwd), _hx)
+        R["score_bv"] = _call(lambda: m.score(DenseBreedingValueMatrix.from_numpy(Y), X, gt, **kwd), _hx)
+        R["var_A"] = _call(lambda: m.var_A(gt), _hx)
+        R["var_G"] = _call(lambda: m.var_G(gt, **kwd), _hx)
+        R["var_a"] = _call(lambda: m.var_a(gt, **kw), _hx)
+        R["bulmer"] = _call(lambda: m.bulmer(gt, **kw), _hx)
+        R["var_A_numpy"] = _call(lambda: m.var_A_numpy(dos), _hx)
+        R["var_G_numpy"] = _call(lambda: m.var_G_numpy(Zg), _hx)
+        # the *_numpy forms of the genic variance and the Bulmer ratio, handed the allele frequencies and the ploidy explicitly
+        if fmt == "unphased":
+            plx = case["ploidy"]
+            freq = dos.sum(0) / (plx * n)
+            R["var_a_numpy"] = _call(lambda: m.var_a_numpy(freq.copy(), plx), _hx)
+            R["bulmer_numpy"] = _call(lambda: m.bulmer_numpy(dos, freq.copy(), plx), _hx)
         if not raw:
+            dts = case.get("dtypes") or {}
+            R["dtype"] = {}
             for f in COUNTS:
                 if case["cls"] != "L" or f in L_COUNTS:
-                    R[f] = _try(lambda: getattr(m, f)(gt).tolist() if "freq" not in f else _hx(getattr(m, f)(gt)))
+                    dt = dts.get(_kind_of(f))
+                    kwt = {} if dt is None else {"dtype": dt}
+                    def conv(a, f=f):
+                        R["dtype"][f] = str(a.dtype)
+                        if "freq" in f: return _hx(a)
+                        if "count" in f: return [[int(x) for x in r] for r in a.tolist()]
+                        return [[(x if isinstance(x, bool) else (bool(x) if x in (0, 1) else "not-a-flag:%r" % (x,))) for x in r] for r in a.tolist()]
+                    R[f] = _call(lambda: getattr(m, f)(gt, **kwt), conv)
+        # repeat a few calls after every earlier result has been overwritten: a result is a function of the state at the call
+        again = {"gebv_numpy": _call(lambda: m.gebv_numpy(dos), _hx), "predict_numpy": _call(lambda: m.predict_numpy(X, Zfull), _hx),
+                 "var_a": _call(lambda: m.var_a(gt, **kw), _hx), "var_A": _call(lambda: m.var_A(gt), _hx), "gebv": _call(lambda: m.gebv(gt), _bv)}
+        if not raw:
+            again["facount"] = _call(lambda: getattr(m, "facount")(gt), lambda a: [[int(x) for x in r] for r in a.tolist()])
+        R["stable"] = all(again[k] == R[k] for k in again if not (k == "facount" and (case.get("dtypes") or {}).get("count")))
+        R["inputs_unchanged"] = all(bool(numpy.array_equal(a, b)) for a, b in zip((X, Zm, Y, dos, Zg, Zfull), pristine))
     return R
 
 def _fmts(case):
     return (["phased"] if case["phased"] is not None else []) + ["unphased", "raw"]
 
+def _warm(case):
+    """use a (decoy) model before its coefficients are replaced: anything memoised now would be stale later"""
+    def warm(m):
+        gts = [_build_gt(case, f) for f in _fmts(case)]
+        with numpy.errstate(all="ignore"):
+            for g in gts:
+                for f in (lambda: m.gebv(g), lambda: m.var_A(g), lambda: m.var_a(g), lambda: m.bulmer(g), lambda: m.u, lambda: m.nexplan_u,
+                          lambda: m.facount(g), lambda: m.fafreq(g), lambda: m.dacount(g), lambda: m.gegv(g)):
+                    try: f()
+                    except Exception: pass
+    return warm
+
+def _obtain_gt(case, fmt, perm=None):
+    """the genotype input; under the in-place route a matrix object is first built on other dosages, used, and then overwritten"""
+    if case.get("route") != "inplace" or fmt == "raw":
+        return _build_gt(case, fmt, perm)
+    d = dict(case)
+    pl = case["ploidy"]
+    d["dos"] = [[pl - x for x in r] for r in case["dos"]]
+    if case["phased"] is not None: d["phased"] = [[[1 - x for x in r] for r in ph] for ph in case["phased"]]
+    g = _build_gt(d, fmt, perm)
+    for f in (g.afreq, g.acount, lambda: g.mat_asformat("{0,1,2}"), g.apoly, g.maf):
+        try: f()
+        except Exception: pass
+    g.mat[...] = _build_gt(case, fmt, perm).mat
+    return g
+
 def _run_lin(case):
     from pybrops.breed.prot.bv.TrueBreedingValue import TrueBreedingValue
-    m = _build_model(case)
+    m = _obtain_model(case, _warm(case))
     t = len(case["beta"][0])
-    snap = [m.beta.copy(), m.u.copy()]
+    snap = [m.beta.copy(), m.u.copy(), None if m.trait is None else m.trait.copy()]
     out = {"fmt": {}, "perm": {}}
     gts = {}
     for fmt in _fmts(case):
-        gts[fmt] = _build_gt(case, fmt)
+        gts[fmt] = _obtain_gt(case, fmt)
         out["fmt"][fmt] = _run_fmt(case, m, gts[fmt], fmt)
     # taxon permutation: the same data with rows (and labels) reordered
-    for fmt in _fmts(case):
-        gp = _build_gt(case, fmt, case["perm"])
-        out["perm"][fmt] = _run_fmt(case, m, gp, fmt, case["perm"])
+    gps = {}
+    for fmt in ([] if case.get("noperm") else _fmts(case)):
+        gps[fmt] = _obtain_gt(case, fmt, case["perm"])
+        out["perm"][fmt] = _run_fmt(case, m, gps[fmt], fmt, case["perm"])
     # marker partition: two models holding the two halves of the additive effects
     k = case["split"]
     if case["cls"] in ("A", "AD", "RR"):
@@ -238,13 +399,30 @@ def _run_lin(case):
     f0 = _fmts(case)[0]
     out["tbv"] = _try(lambda: _bv(TrueBreedingValue(m).estimate(None, gts[f0])))
     out["tbv_fmt"] = f0
-    # nothing handed in may be modified
+    misc = {}
+    out["tbv_misc"] = _try(lambda: _bv(TrueBreedingValue(gpmod=m).estimate(None, gts[f0], miscout=misc)))
+    # the read-only classes refuse to be fitted
+    if case["cls"] in ("A", "AD", "L"):
+        Yf = _mk2(case["Y"], t); Xf = _mk2(case["X"], len(case["beta"])); dosf = numpy.array(case["dos"], dtype="int8").reshape((len(case["dos"]), len(case["u_a"])))
+        out["fit_refused"] = [_try(lambda: m.fit_numpy(Yf, Xf, dosf) is None), _try(lambda: m.fit(Yf, Xf, gts[f0]) is None)]
+    # shape bookkeeping of the model object
+    out["shape"] = _try(lambda: {"nexplan_beta": int(m.nexplan_beta), "nexplan_u": int(m.nexplan_u), "nexplan": int(m.nexplan), "nparam_beta": int(m.nparam_beta),
+                                 "nparam_u": int(m.nparam_u), "nparam": int(m.nparam), "ntrait": (None if m.trait is None else int(m.ntrait)),
+                                 "u_shape": list(m.u.shape)} if case["cls"] != "L" else
+                        {"nparam_beta": int(m.nparam_beta), "nparam_u": int(m.nparam_u), "ntrait": (None if m.trait is None else int(m.ntrait)), "u_shape": list(m.u.shape)})
+    # nothing handed in may be modified: coefficient arrays, trait names, genotype matrices, taxon labels and groups
     ok = bool(numpy.array_equal(snap[0], m.beta) and numpy.array_equal(snap[1], m.u))
-    for fmt in _fmts(case):
-        ref = _build_gt(case, fmt)
-        a = gts[fmt] if fmt == "raw" else gts[fmt].mat
-        b = ref if fmt == "raw" else ref.mat
-        ok = ok and bool(numpy.array_equal(a, b))
+    ok = ok and ((snap[2] is None and m.trait is None) or (snap[2] is not None and m.trait is not None and list(snap[2]) == list(m.trait)))
+    for objs, perm in ((gts, None), (gps, case["perm"])):
+        for fmt in objs:
+            ref = _build_gt(case, fmt, perm)
+            a = objs[fmt] if fmt == "raw" else objs[fmt].mat
+            b = ref if fmt == "raw" else ref.mat
+            ok = ok and bool(numpy.array_equal(a, b))
+            if fmt != "raw":
+                ok = ok and _lab(objs[fmt].taxa) == _lab(ref.taxa) and _lab(objs[fmt].taxa_grp) == _lab(ref.taxa_grp)
+    for R in list(out["fmt"].values()) + list(out["perm"].values()):
+        ok = ok and R["inputs_unchanged"]
     out["unchanged"] = ok
     return out
 
@@ -253,8 +431,13 @@ def _run_gs(case):
     A = _arr(case["A"]); b = _arr(case["b"])
     A0, b0 = A.copy(), b.copy()
     with numpy.errstate(all="ignore"):
-        x = gauss_seidel(A, b, case["atol"], case["maxiter"])
-    return {"x": _hx(x), "unchanged": bool(numpy.array_equal(A, A0) and numpy.array_equal(b, b0))}
+        if case.get("defaults"): x = gauss_seidel(A, b)                # atol = 1e-8, maxiter = 1000 by default
+        elif case.get("by_keyword"): x = gauss_seidel(b=b, A=A, maxiter=case["maxiter"], atol=case["atol"])
+        else: x = gauss_seidel(A, b, case["atol"], case["maxiter"])
+        x0 = _hx(x)
+        x[...] = 113.0                                                   # the result belongs to the caller
+        again = gauss_seidel(A, b, case["atol"], case["maxiter"])
+    return {"x": x0, "unchanged": bool(numpy.array_equal(A, A0) and numpy.array_equal(b, b0)), "stable": _hx(again) == x0}
 
 def _run_fit(case):
     from pybrops.model.gmod.rrBLUPModel0 import rrBLUPModel0, rrBLUP_ML0
@@ -262,20 +445,24 @@ def _run_fit(case):
     Y = _arr(case["Y"]); Zi = numpy.array(case["Z"], dtype="int8")
     trait = None if case["trait"] is None else numpy.array(case["trait"], dtype=object)
     Y0, Z0 = Y.copy(), Zi.copy()
+    kw = {"trait": trait}
+    meta = case.get("meta")
+    if meta: kw.update({"method": meta["method"], "model_name": meta["model_name"], "hyperparams": dict(meta["hyperparams"])})
+    Xarg = numpy.ones((Y.shape[0], 1)) if case.get("X") == "ones" else None        # covariates are accepted and ignored by this model
     with numpy.errstate(all="ignore"):
         Yseen = Y
         if case["via"] == "fit":
             g = DenseGenotypeMatrix(Zi, ploidy=case["ploidy"])
-            m = rrBLUPModel0.fit(Y, None, g, trait=trait)
+            m = rrBLUPModel0.fit(Y, Xarg, g, **kw)
         elif case["via"] == "fit_bv":
             from pybrops.popgen.bvmat.DenseBreedingValueMatrix import DenseBreedingValueMatrix
             bv = DenseBreedingValueMatrix.from_numpy(Y)
             Yseen = bv.unscale()                    # what fit() extracts from the matrix object (Y up to rounding)
-            m = rrBLUPModel0.fit(bv, None, DenseGenotypeMatrix(Zi, ploidy=case["ploidy"]), trait=trait)
+            m = rrBLUPModel0.fit(bv, Xarg, DenseGenotypeMatrix(Zi, ploidy=case["ploidy"]), **kw)
         elif case["via"] == "fit_raw":
-            m = rrBLUPModel0.fit(Y, None, Zi, trait=trait)
+            m = rrBLUPModel0.fit(Y, Xarg, Zi, **kw)
         else:
-            m = rrBLUPModel0.fit_numpy(Y, None, Zi, trait=trait)
+            m = rrBLUPModel0.fit_numpy(Y, Xarg, Zi, **kw)
         # variance components of every trait: the same deterministic routine on the polymorphic columns
         Zf = Zi.astype(float)
         poly = ~numpy.all(Zf == Zf[0, :], axis=0)
@@ -285,9 +472,21 @@ def _run_fit(case):
             comps.append({"varE": float(r["varE"]).hex(), "varU": float(r["varU"]).hex(), "ridge": float(r["varE"] / r["varU"]).hex(),
                           "uhat": _hx(r["uhat"]), "betahat": _hx(r["betahat"]), "yhat": _hx(r["yhat"])})
         gebv = m.gebv_numpy(Zf)
-    return {"cls": type(m).__name__, "beta": _hx(m.beta), "u_a": _hx(m.u_a), "u_misc_shape": list(m.u_misc.shape), "trait": _lab(m.trait),
-            "method": m.method, "comps": comps, "gebv_numpy": _hx(gebv),
-            "unchanged": bool(numpy.array_equal(Y, Y0) and numpy.array_equal(Zi, Z0))}
+        res = {"cls": type(m).__name__, "beta": _hx(m.beta), "u_a": _hx(m.u_a), "u_misc_shape": list(m.u_misc.shape), "trait": _lab(m.trait),
+               "method": m.method, "comps": comps, "gebv_numpy": _hx(gebv), "model_name": m.model_name, "hyperparams": dict(m.hyperparams)}
+        # copies of the fitted model predict the same and do not share its arrays
+        import copy as _copy
+        cps = [_copy.copy(m), _copy.deepcopy(m), m.copy(), m.deepcopy()]
+        m.u_a[...] = 113.0; m.beta[...] = 113.0
+        res["copies_ok"] = all(type(c).__name__ == "rrBLUPModel0" and _hx(c.gebv_numpy(Zf)) == res["gebv_numpy"] and _hx(c.beta) == res["beta"]
+                               and c.method == res["method"] and _lab(c.trait) == res["trait"] for c in cps)
+        # the solver's tolerance and iteration limit handed to rrBLUP_ML0 reach gauss_seidel (in that order)
+        if case.get("gs"):
+            r = rrBLUP_ML0(Yseen[:, 0].copy(), Zf[:, poly].copy(), gsatol=case["gs"][0], gsmaxiter=case["gs"][1])
+            ua = numpy.zeros(Zf.shape[1]); ua[poly] = r["uhat"]
+            res["alt"] = {"ridge": float(r["varE"] / r["varU"]).hex(), "u": _hx(ua), "beta": float(r["betahat"][0]).hex()}
+    res["unchanged"] = bool(numpy.array_equal(Y, Y0) and numpy.array_equal(Zi, Z0))
+    return res
 
 def run_impl(case):
     return {"lin": _run_lin, "gs": _run_gs, "fit": _run_fit}[case["kind"]](case)
@@ -355,7 +554,12 @@ def _gen_lin(rng, big=False, cls=None):
     perm = list(range(n)); rng.shuffle(perm)
     split = rng.randint(0, p)
     ploidy_arg = None if rng.random() < 0.25 else ploidy
-    case = {"kind": "lin", "cls": cls, "beta": beta, "u_misc": u_misc, "u_a": u_a, "u_d": u_d, "trait": trait, "ploidy": ploidy,
+    route = rng.choice(ROUTES)
+    dtypes = None
+    if rng.random() < 0.4:                                    # non-default dtype arguments of the allele statistics
+        dtypes = {"count": rng.choice([None, "int64", "int32", "int16"]), "freq": rng.choice([None, "float64"]),
+                  "flag": rng.choice([None, "bool", "int8", "int64"])}
+    case = {"kind": "lin", "route": route, "dtypes": dtypes, "cls": cls, "beta": beta, "u_misc": u_misc, "u_a": u_a, "u_d": u_d, "trait": trait, "ploidy": ploidy,
             "phased": ph, "dos": dos, "taxa": taxa, "taxa_grp": taxa_grp, "X": X, "Zm": Zm, "Y": Y, "perm": perm, "split": split,
             "ploidy_arg": ploidy_arg}
     if multiscale: _add_scaled_traits(rng, case)
@@ -571,7 +775,21 @@ def _pred_fmt(bad, case, R, fmt, D, tagp, perm=None):
             a, b = _fr(H[kc]), _fr(H[kb])
             if (a is None) != (b is None) or (a is not None and not _close(a, b)):
                 bad.append(tag(nm) + " changes when the trait is scaled by 2^%d" % e)
+    if not R.get("stable", True): bad.append(tag("a repeated call") + " gave a different result after the earlier results had been overwritten in place")
+    if "var_a_numpy" in R:
+        if not _vec_rclose(R["var_a_numpy"], D0["var_a"]): bad.append(tag("var_a_numpy") + " != ploidy^2 sum u^2 p(1-p)")
+        H = R["bulmer_numpy"]
+        if not isinstance(H, list): bad.append(tag("bulmer_numpy") + " raised")
+        else:
+            for k, h in enumerate(H):
+                if D0["var_a"][k] == 0:
+                    if not math.isnan(_fh(h)): bad.append(tag("bulmer_numpy") + " is not NaN although the genic variance is zero")
+                elif not _rclose(_fr(h), D0["var_A"][k] / D0["var_a"][k]): bad.append(tag("bulmer_numpy") + " != var_A / var_a")
     if not raw:
+        dts = case.get("dtypes") or {}
+        for f, got in (R.get("dtype") or {}).items():
+            want = dts.get(_kind_of(f)) or DEFAULT_DTYPE[_kind_of(f)]
+            if got != want: bad.append(tag(f) + " has dtype %s, not the requested/default %s" % (got, want))
         for f in (COUNTS if cls != "L" else L_COUNTS):
             want = D[f]
             got = R[f]
@@ -598,9 +816,10 @@ def _pred_lin(case, out):
         _pred_fmt(bad, case, R, fmt, Dpr if fmt == "raw" else Dp, "permuted ", case["perm"])
     # equivariance stated directly between the two runs: exact for the raw products
     f0 = "unphased"
-    a, b = out["fmt"][f0]["gebv_numpy"], out["perm"][f0]["gebv_numpy"]
-    if isinstance(a, list) and isinstance(b, list) and b != [a[i] for i in case["perm"]]:
-        bad.append("gebv_numpy of the permuted input is not the permuted gebv_numpy")
+    if f0 in out["perm"]:
+        a, b = out["fmt"][f0]["gebv_numpy"], out["perm"][f0]["gebv_numpy"]
+        if isinstance(a, list) and isinstance(b, list) and b != [a[i] for i in case["perm"]]:
+            bad.append("gebv_numpy of the permuted input is not the permuted gebv_numpy")
     # the three representations give the same answers
     fm = list(out["fmt"])
     for fmt in fm[1:]:
@@ -621,6 +840,16 @@ def _pred_lin(case, out):
             s = [[_fr(x) + _fr(y) for x, y in zip(r1, r2)] for r1, r2 in zip(a, b)]
             if s != D["gv0"]: bad.append("gegv_numpy is not additive over a marker partition")
     _check_bv(bad, "TrueBreedingValue.estimate", out["tbv"], D["bv"], case, out["tbv_fmt"])
+    if "tbv_misc" in out: _check_bv(bad, "TrueBreedingValue.estimate(miscout)", out["tbv_misc"], D["bv"], case, out["tbv_fmt"])
+    for r in out.get("fit_refused", []):
+        if not (isinstance(r, dict) and r.get("exc") == "AttributeError"): bad.append("a read-only model class accepted fit/fit_numpy")
+    if "shape" in out:
+        sh = out["shape"]; t = len(case["beta"][0]); q = len(case["beta"]); p = len(case["u_a"])
+        pm = 0 if not case["u_misc"] else len(case["u_misc"])
+        nu = pm + p * (2 if case["cls"] == "AD" else 1)
+        want = {"nparam_beta": q * t, "nparam_u": nu * t, "ntrait": (None if case["trait"] is None else t), "u_shape": [nu, t]}
+        if case["cls"] != "L": want.update({"nexplan_beta": q, "nexplan_u": nu, "nexplan": q + nu, "nparam": (q + nu) * t})
+        if sh != want: bad.append("shape bookkeeping of the model object is wrong: %s" % (sh,))
     if not out["unchanged"]: bad.append("an input array or the model was modified")
     return bad
 
@@ -685,6 +914,10 @@ def _emit_fmt(case, R, fmt, pfx, parts):
     parts.append("agree_Rl %s (var_G g %sgt_unphased None)" % (_impl_vec(R["var_G_numpy"]), pfx))
     parts.append("agree_Rl %s (Some (var_a g %s %s))" % (_impl_vec(R["var_a"]), gt, arg))
     parts.append("agree_Ro %s (bulmer g %s %s)" % (_impl_ovec(R["bulmer"]), gt, arg))
+    if "var_a_numpy" in R:      # the *_numpy forms are handed the frequencies and the ploidy of the matrix object
+        parts.append("agree_Rl %s (Some (var_a g %sgt_unphased None))" % (_impl_vec(R["var_a_numpy"]), pfx))
+        parts.append("agree_Ro %s (bulmer g %sgt_unphased None)" % (_impl_ovec(R["bulmer_numpy"]), pfx))
+    parts.append(E.b(bool(R.get("stable", True))))
     if not raw:
         for f in (COUNTS if cls != "L" else L_COUNTS):
             v = R[f]
@@ -736,6 +969,7 @@ def _emit_lin(case, out):
         if isinstance(a, dict) or isinstance(b, dict): parts.append("false")
         else: parts.append("agree_E (Some (madd %s %s)) (gegv_numpy g (design g gt_unphased None))" % (E.lst2(a, _qh), E.lst2(b, _qh)))
     parts.append("agree_bv g %s (tbv_estimate g gt_%s lab)" % (_impl_bv(out["tbv"]), out["tbv_fmt"]))
+    if "tbv_misc" in out: parts.append("agree_bv g %s (tbv_estimate g gt_%s lab)" % (_impl_bv(out["tbv_misc"]), out["tbv_fmt"]))
     parts.append(E.b(out["unchanged"]))
     body = "(" + "\n   && ".join(parts) + ")"
     for nm, v in reversed(lets):
@@ -769,7 +1003,15 @@ def _gen_gs(rng, big=False):
     b = [_g(rng, den=4, lim=32, pzero=0.15) for _ in range(p)]
     atol = rng.choice([0.0, 2.0 ** -20, 2.0 ** -8, 2.0 ** -4, 0.25, 1.0, 1e-8])
     maxiter = rng.choice([0, 1, 1, 2, 3, 4, 5, 6]) if not big else rng.randint(0, 9)
-    return {"kind": "gs", "A": A, "b": b, "atol": atol, "maxiter": maxiter}
+    case = {"kind": "gs", "A": A, "b": b, "atol": atol, "maxiter": maxiter}
+    r = rng.random()
+    if r < 0.15 and all(A[i][i] != 0 for i in range(p)):
+        # the default arguments (atol = 1e-8, maxiter = 1000), on systems that the exact iteration settles within a few sweeps
+        x, sweeps = _gs_exact(_FM(A), [F(v) for v in b], F(GS_ATOL), GS_MAXITER, cap=RERUN_CAP)
+        if x is not None: case.update({"atol": GS_ATOL, "maxiter": GS_MAXITER, "defaults": True})
+    elif r < 0.3:
+        case["by_keyword"] = True
+    return case
 
 def _gs_exact(A, b, atol, maxiter, cap=None):
     """harness-side exact replica of the loop, used to (i) state the predicate, (ii) count sweeps for the emit decision"""
@@ -794,6 +1036,7 @@ def _pred_gs(case, out):
     x = [_fr(h) for h in out["x"]]
     if len(x) != p: return ["gauss_seidel returned %d values for %d unknowns" % (len(x), p)]
     if not out["unchanged"]: bad.append("gauss_seidel modified A or b")
+    if not out.get("stable", True): bad.append("a second call of gauss_seidel on the same system gave a different result")
     if any(A[i][i] == 0 for i in range(p)):
         if case["maxiter"] > 0 and atol > 0 and all(v is not None for v in x): bad.append("finite result with a zero pivot")
         return bad
@@ -813,7 +1056,7 @@ def _emit_gs(case, out):
     x = out["x"]
     impl = "None" if any(_fr(h) is None for h in x) else "(Some %s)" % E.lst(x, _qh)
     return "(opt_eqb qclose_l %s (gauss_seidel %s %s %s %d%%nat) && %s)" % (
-        impl, _qm(case["A"]), E.lst(case["b"], _q), _q(case["atol"]), case["maxiter"], E.b(out["unchanged"]))
+        impl, _qm(case["A"]), E.lst(case["b"], _q), _q(case["atol"]), case["maxiter"], E.b(out["unchanged"] and out.get("stable", True)))
 
 def _gen_fit(rng, big=False):
     n = rng.randint(3, 9) if not big else rng.randint(3, 16)
@@ -841,8 +1084,13 @@ def _gen_fit(rng, big=False):
     if rng.random() < 0.2:                                   # responses at another scale (powers of two: still dyadic)
         yscale = rng.choice([-12, 8])
         Y = [[v * 2.0 ** yscale for v in r] for r in Y]
-    return {"kind": "fit", "Y": Y, "Z": Z, "trait": trait, "via": rng.choice(["fit_numpy", "fit_numpy", "fit", "fit_raw", "fit_bv"]), "ploidy": ploidy,
+    case = {"kind": "fit", "Y": Y, "Z": Z, "trait": trait, "via": rng.choice(["fit_numpy", "fit_numpy", "fit", "fit_raw", "fit_bv"]), "ploidy": ploidy,
             "yscale": yscale}
+    if rng.random() < 0.4:
+        case["meta"] = {"method": rng.choice(["ML", "ml", "Ml"]), "model_name": rng.choice(["rr", "model A"]), "hyperparams": {"k": rng.randint(0, 9)}}
+    if rng.random() < 0.3: case["X"] = "ones"
+    if rng.random() < 0.5: case["gs"] = [rng.choice([2.0 ** -6, 2.0 ** -10, 0.25]), rng.randint(1, 6)]
+    return case
 
 GS_ATOL = 1e-8
 GS_MAXITER = 1000
@@ -871,6 +1119,24 @@ def _pred_fit(case, out):
     if out["cls"] != "rrBLUPModel0": bad.append("fit returned a %s" % out["cls"])
     if out["trait"] != case["trait"]: bad.append("trait names not carried by the fitted model")
     if not out["unchanged"]: bad.append("fit modified its inputs")
+    if not out.get("copies_ok", True): bad.append("a copy of the fitted model differs from it or shares its arrays")
+    meta = case.get("meta")
+    if "model_name" in out:
+        if out["method"] != "ML": bad.append("method of the fitted model is %r" % (out["method"],))
+        if out["model_name"] != (meta["model_name"] if meta else "") or out["hyperparams"] != (meta["hyperparams"] if meta else {}):
+            bad.append("model_name / hyperparams not carried by the fitted model")
+    if "alt" in out:
+        # the same fit with the solver's tolerance and iteration limit given: exactly that many Gauss-Seidel sweeps at most
+        a = out["alt"]; rdg = _fr(a["ridge"])
+        mask, Zp, pp, mu, yc, _r, _A, b = _fit_parts(case, out, 0)
+        if rdg is None or rdg <= 0: bad.append("non-finite ridge with explicit solver arguments")
+        else:
+            A2 = [[sum((Zp[i][x] * Zp[i][c] for i in range(n)), F(0)) + (rdg if x == c else 0) for c in range(pp)] for x in range(pp)]
+            want, _n = _gs_exact(A2, b, F(case["gs"][0]), case["gs"][1])
+            got = [_fr(h) for h, mk in zip(a["u"], mask) if mk]
+            if want is None or any(g is None for g in got) or not all(_close(g, w, F(1, 2 ** 30)) for g, w in zip(got, want)):
+                bad.append("rrBLUP_ML0(gsatol, gsmaxiter) does not run gauss_seidel with that tolerance and iteration limit")
+            if any(_fr(h) != 0 for h, mk in zip(a["u"], mask) if not mk) or not _close(_fr(a["beta"]), mu): bad.append("rrBLUP_ML0 with explicit solver arguments: structure")
     if len(out["beta"]) != 1 or len(out["beta"][0]) != t or len(out["u_a"]) != p or out["u_misc_shape"] != [0, t]:
         return bad + ["fitted coefficient shapes are wrong"]
     for k in range(t):
@@ -905,10 +1171,20 @@ def _emit_fit(case, out):
         if beta is None or ridge is None or any(v is None for v in u): return "false"
         y = E.lst([case["Y"][i][k] for i in range(n)], _q)
         parts.append("rr_clauses %d%%nat Zg %s %s %s %s %s true" % (p, y, E.q(ridge), _q(GS_ATOL), E.q(beta), E.lst(u, E.q)))
+        # the ridge parameter handed to the clauses is the source's own expression (generated kernel) of the variance components
+        vE, vU = _fr(out["comps"][k]["varE"]), _fr(out["comps"][k]["varU"])
+        if vE is None or vU is None or vU == 0: return "false"
+        parts.append("Qclose %s (k_ridge %s %s)" % (E.q(ridge), E.q(vE), E.q(vU)))
         mask, Zp, pp, mu, yc, rdg, A, b = _fit_parts(case, out, k)
         x, sweeps = _gs_exact(A, b, F(GS_ATOL), GS_MAXITER, cap=RERUN_CAP)
         if x is not None:
             parts.append("rr_rerun_agrees %d%%nat Zg %s %s %s %d%%nat %s %s" % (p, y, E.q(ridge), _q(GS_ATOL), GS_MAXITER, E.q(beta), E.lst(u, E.q)))
+    if "alt" in out:
+        a = out["alt"]; rdg = _fr(a["ridge"]); ua = [_fr(h) for h in a["u"]]; ba = _fr(a["beta"])
+        if rdg is None or ba is None or any(v is None for v in ua): return "false"
+        y0 = E.lst([case["Y"][i][0] for i in range(n)], _q)
+        parts.append("rr_rerun_agrees %d%%nat Zg %s %s %s %d%%nat %s %s" % (p, y0, E.q(rdg), _q(case["gs"][0]), case["gs"][1], E.q(ba), E.lst(ua, E.q)))
+    parts.append(E.b(bool(out.get("copies_ok", True))))
     return "(let Zg := %s in\n (%s))" % (E.lst2(Z, E.z), "\n   && ".join(parts))
 
 
@@ -965,7 +1241,9 @@ def describe(case, out):
                   "phased_given": case["phased"] is not None, "taxa_labels": case["taxa"] is not None, "taxa_groups": case["taxa_grp"] is not None,
                   "effect_signs": "".join(sorted({"+" if x > 0 else ("-" if x < 0 else "0") for x in flat})),
                   "u_d": "n/a" if case["cls"] != "AD" else ("None" if case["u_d"] is None else "given"),
-                  "size_with_inexact_reciprocal": case["ploidy"] * n in BAD_N,
+                  "size_with_inexact_reciprocal": case["ploidy"] * n in BAD_N, "route": case.get("route", "ctor"),
+                  "dtype_args": "default" if not case.get("dtypes") else "/".join(str(case["dtypes"][k]) for k in ("count", "freq", "flag")),
+                  "wide_or_tall": ("p>255" if p > 255 else "") + ("n>127" if n > 127 else ""),
                   "trait_scales": "ordinary" if not case.get("scaled") else "+".join(sorted(set(case["trait_kinds"]))) + " 2^%d" % case["scaled"][0][2]})
     elif case["kind"] == "gs":
         A = case["A"]; p = len(A)
@@ -987,6 +1265,21 @@ def _special_cases(quick):
         out.append({"kind": "lin", "cls": cls, "beta": [[1.0]], "u_misc": None, "u_a": [[1.5], [-2.0]], "u_d": None, "trait": None, "ploidy": pl,
                     "phased": None, "dos": [[pl, 0]] * n, "taxa": None, "taxa_grp": None, "X": [[1.0]] * n, "Zm": [[]] * n,
                     "Y": [[float(i % 3)] for i in range(n)], "perm": list(range(1, n)) + [0], "split": 1, "ploidy_arg": pl})
+    r2 = __import__("random").Random(20260930)
+    # more markers than an 8-bit integer can count (p = 260) and more taxa than int8/uint8 can count (n = 130 / 300, tetraploid:
+    # allele counts up to 1200), each through a different route, with exact-zero, positive and negative effects
+    big = [("A", 130, 2, 4, "deepcopy"), ("L", 130, 2, 4, "setters"), ("AD", 2, 260, 2, "inplace")]
+    if not quick: big += [("AD", 130, 3, 4, "inplace"), ("L", 300, 2, 4, "inplace"), ("RR", 140, 2, 2, "copy_m"), ("A", 3, 300, 3, "copy"), ("L", 2, 260, 2, "copy")]
+    for cls, n, p, pl, route in big:
+        dos = [[r2.choice([0, pl, pl, r2.randint(0, pl)]) for _ in range(p)] for _ in range(n)]
+        for i in range(n): dos[i][0] = pl                 # a fixed marker next to polymorphic ones
+        u_a = [[r2.choice([0.0, 0.5, -1.25, 2.0])] for _ in range(p)]
+        u_a[0] = [1.5]
+        out.append({"kind": "lin", "route": route, "dtypes": {"count": "int32", "freq": None, "flag": "int8"} if cls != "RR" else None, "cls": cls, "beta": [[1.0], [0.5]],
+                    "u_misc": None, "u_a": u_a, "u_d": ([[r2.choice([0.0, 0.25, -0.5])] for _ in range(p)] if cls == "AD" else None), "trait": ["big"],
+                    "ploidy": pl, "phased": None, "dos": dos, "taxa": ["t%d" % i for i in range(n)], "taxa_grp": [i % 3 for i in range(n)],
+                    "X": [[1.0, float(i % 2)] for i in range(n)], "Zm": [[]] * n, "Y": [[float((i * 7) % 5)] for i in range(n)],
+                    "perm": list(range(n - 1, -1, -1)), "split": p // 2, "ploidy_arg": pl, "noperm": True})
     return out
 
 def gen_cases(rng, tier):
@@ -1069,3 +1362,246 @@ def shrink(case, fails):
                 c = copy.deepcopy(cur); c["Z"] = c["Z"][:i] + c["Z"][i + 1:]; c["Y"] = c["Y"][:i] + c["Y"][i + 1:]
                 if attempt(c): changed = True; break
     return cur
+
+
+# ------------------------------------------------------------------------------------------------ entry-point audit (fail closed)
+ANCHOR_MODULES = ["pybrops.model.gmod.DenseLinearGenomicModel", "pybrops.model.gmod.DenseAdditiveLinearGenomicModel",
+                  "pybrops.model.gmod.DenseAdditiveDominanceLinearGenomicModel", "pybrops.model.gmod.rrBLUPModel0",
+                  "pybrops.popgen.bvmat.DenseGenomicEstimatedBreedingValueMatrix", "pybrops.breed.prot.bv.TrueBreedingValue"]
+
+# public names of the anchored modules that this check does NOT drive, with the reason (regular expression on the member name)
+SKIPPED = [
+    (r"(^|\.)(usl|lsl)(_numpy)?$", "selection limits are property C10 (harness/props/c10.py drives usl/lsl/usl_numpy/lsl_numpy)"),
+    (r"(^|\.)(to|from)_(hdf5|pandas_dict|csv_dict)$", "persistence is property C16 (round trips of the genomic-model classes)"),
+    (r"^check_is_\w+$", "type guard without numerical content"),
+    (r"^rrBLUP_ML0_(calc_G|calc_d_V|nonzero_d_V|calc_etasq|neg2LogLik_fast)$",
+     "numerical part of the ML step (standardised relationship matrix, eigh, spectral likelihood for Nelder-Mead): not modelled, trusted; "
+     "observed only through the variance components rrBLUP_ML0 returns"),
+]
+# everything else is driven by run_impl (how, per member-name pattern; first match wins)
+COVERED = [
+    (r"\.__init__$", "every case builds its objects through the constructors (u_misc/u_d/trait None or given)"),
+    (r"\.(__copy__|__deepcopy__|copy|deepcopy)$", "lin routes copy/deepcopy/copy_m/deepcopy_m (the original is overwritten afterwards); copies of fitted models"),
+    (r"\.(beta|u|u_misc|u_a|u_d|trait)$", "lin routes 'setters' (assignment on a used decoy model) and 'inplace' (writes into the arrays of a used decoy model); read back as 'unchanged'"),
+    (r"\.(nexplan|nparam|ntrait)\w*$", "out['shape'] of every lin case"),
+    (r"\.(model_name|hyperparams|method)$", "fit cases with keyword arguments; carried by copies"),
+    (r"\.(fit|fit_numpy)$", "fit cases (rrBLUPModel0: ndarray / GenotypeMatrix / BreedingValueMatrix inputs, keyword arguments, covariates given); the read-only classes must refuse (out['fit_refused'])"),
+    (r"\.(predict|score|gebv|gegv|var_G|var_A|var_a|bulmer)(_numpy)?$", "_run_fmt on up to three genotype representations, permuted, ploidy keyword given/defaulted"),
+    (r"\.(fa|da|na)(count|freq|avail|fixed|poly)$", "_run_fmt on the matrix representations, dtype argument default and non-default"),
+    (r"^gauss_seidel$", "gs cases (positional, keyword and default arguments)"),
+    (r"^rrBLUP_ML0$", "fit cases: variance components of every trait; explicit gsatol/gsmaxiter (case['gs'])"),
+    (r"^rrBLUP_ML0_(center_y|calc_ridge|calc_ZtZplI|calc_Zty)$", "through rrBLUP_ML0; their expressions are regenerated into Gen/C04_Kernel.v or compared verbatim by the translator"),
+    (r"\.gpmod$", "TrueBreedingValue(m) / TrueBreedingValue(gpmod=m)"),
+    (r"\.estimate$", "out['tbv'], out['tbv_misc'] of every lin case"),
+]
+
+ENTRY_POINTS = """
+DenseLinearGenomicModel:DenseLinearGenomicModel.__init__|self,beta,u,trait,model_name,hyperparams,kwargs
+DenseLinearGenomicModel:DenseLinearGenomicModel.__copy__|self
+DenseLinearGenomicModel:DenseLinearGenomicModel.__deepcopy__|self,memo
+DenseLinearGenomicModel:DenseLinearGenomicModel.nparam_beta|property
+DenseLinearGenomicModel:DenseLinearGenomicModel.beta|property+setter
+DenseLinearGenomicModel:DenseLinearGenomicModel.nparam_u|property
+DenseLinearGenomicModel:DenseLinearGenomicModel.u|property+setter
+DenseLinearGenomicModel:DenseLinearGenomicModel.model_name|property+setter
+DenseLinearGenomicModel:DenseLinearGenomicModel.hyperparams|property+setter
+DenseLinearGenomicModel:DenseLinearGenomicModel.trait|property+setter
+DenseLinearGenomicModel:DenseLinearGenomicModel.ntrait|property+setter
+DenseLinearGenomicModel:DenseLinearGenomicModel.fit_numpy|self,Y,X,Z,kwargs
+DenseLinearGenomicModel:DenseLinearGenomicModel.fit|self,ptobj,cvobj,gtobj,kwargs
+DenseLinearGenomicModel:DenseLinearGenomicModel.predict_numpy|self,X,Z,kwargs
+DenseLinearGenomicModel:DenseLinearGenomicModel.predict|self,cvobj,gtobj,kwargs
+DenseLinearGenomicModel:DenseLinearGenomicModel.score_numpy|self,Y,X,Z,kwargs
+DenseLinearGenomicModel:DenseLinearGenomicModel.score|self,ptobj,cvobj,gtobj,kwargs
+DenseLinearGenomicModel:DenseLinearGenomicModel.gebv_numpy|self,Z,kwargs
+DenseLinearGenomicModel:DenseLinearGenomicModel.gebv|self,gtobj,kwargs
+DenseLinearGenomicModel:DenseLinearGenomicModel.var_G_numpy|self,Z,kwargs
+DenseLinearGenomicModel:DenseLinearGenomicModel.var_G|self,gtobj,kwargs
+DenseLinearGenomicModel:DenseLinearGenomicModel.var_A_numpy|self,Z,kwargs
+DenseLinearGenomicModel:DenseLinearGenomicModel.var_A|self,gtobj,kwargs
+DenseLinearGenomicModel:DenseLinearGenomicModel.var_a_numpy|self,p,ploidy,kwargs
+DenseLinearGenomicModel:DenseLinearGenomicModel.var_a|self,gtobj,ploidy,kwargs
+DenseLinearGenomicModel:DenseLinearGenomicModel.bulmer_numpy|self,Z,p,ploidy,kwargs
+DenseLinearGenomicModel:DenseLinearGenomicModel.bulmer|self,gtobj,ploidy,kwargs
+DenseLinearGenomicModel:DenseLinearGenomicModel.usl_numpy|self,p,ploidy,kwargs
+DenseLinearGenomicModel:DenseLinearGenomicModel.usl|self,gtobj,ploidy,kwargs
+DenseLinearGenomicModel:DenseLinearGenomicModel.lsl_numpy|self,p,ploidy,kwargs
+DenseLinearGenomicModel:DenseLinearGenomicModel.lsl|self,gtobj,ploidy,kwargs
+DenseLinearGenomicModel:DenseLinearGenomicModel.facount|self,gmat,dtype,kwargs
+DenseLinearGenomicModel:DenseLinearGenomicModel.fafreq|self,gmat,dtype,kwargs
+DenseLinearGenomicModel:DenseLinearGenomicModel.faavail|self,gmat,dtype,kwargs
+DenseLinearGenomicModel:DenseLinearGenomicModel.fafixed|self,gmat,dtype,kwargs
+DenseLinearGenomicModel:DenseLinearGenomicModel.dacount|self,gmat,dtype,kwargs
+DenseLinearGenomicModel:DenseLinearGenomicModel.dafreq|self,gmat,dtype,kwargs
+DenseLinearGenomicModel:DenseLinearGenomicModel.daavail|self,gmat,dtype,kwargs
+DenseLinearGenomicModel:DenseLinearGenomicModel.dafixed|self,gmat,dtype,kwargs
+DenseLinearGenomicModel:DenseLinearGenomicModel.to_hdf5|self,filename,groupname,overwrite
+DenseLinearGenomicModel:DenseLinearGenomicModel.from_hdf5|cls,filename,groupname
+DenseLinearGenomicModel:check_is_DenseLinearGenomicModel|v,vname
+DenseAdditiveLinearGenomicModel:DenseAdditiveLinearGenomicModel.__init__|self,beta,u_misc,u_a,trait,model_name,hyperparams,kwargs
+DenseAdditiveLinearGenomicModel:DenseAdditiveLinearGenomicModel.__copy__|self
+DenseAdditiveLinearGenomicModel:DenseAdditiveLinearGenomicModel.__deepcopy__|self,memo
+DenseAdditiveLinearGenomicModel:DenseAdditiveLinearGenomicModel.nexplan|property
+DenseAdditiveLinearGenomicModel:DenseAdditiveLinearGenomicModel.nparam|property
+DenseAdditiveLinearGenomicModel:DenseAdditiveLinearGenomicModel.nexplan_beta|property
+DenseAdditiveLinearGenomicModel:DenseAdditiveLinearGenomicModel.nparam_beta|property
+DenseAdditiveLinearGenomicModel:DenseAdditiveLinearGenomicModel.beta|property+setter
+DenseAdditiveLinearGenomicModel:DenseAdditiveLinearGenomicModel.nexplan_u|property
+DenseAdditiveLinearGenomicModel:DenseAdditiveLinearGenomicModel.nparam_u|property
+DenseAdditiveLinearGenomicModel:DenseAdditiveLinearGenomicModel.u|property+setter
+DenseAdditiveLinearGenomicModel:DenseAdditiveLinearGenomicModel.nexplan_u_misc|property
+DenseAdditiveLinearGenomicModel:DenseAdditiveLinearGenomicModel.nparam_u_misc|property
+DenseAdditiveLinearGenomicModel:DenseAdditiveLinearGenomicModel.u_misc|property+setter
+DenseAdditiveLinearGenomicModel:DenseAdditiveLinearGenomicModel.nexplan_u_a|property
+DenseAdditiveLinearGenomicModel:DenseAdditiveLinearGenomicModel.nparam_u_a|property
+DenseAdditiveLinearGenomicModel:DenseAdditiveLinearGenomicModel.u_a|property+setter
+DenseAdditiveLinearGenomicModel:DenseAdditiveLinearGenomicModel.model_name|property+setter
+DenseAdditiveLinearGenomicModel:DenseAdditiveLinearGenomicModel.hyperparams|property+setter
+DenseAdditiveLinearGenomicModel:DenseAdditiveLinearGenomicModel.trait|property+setter
+DenseAdditiveLinearGenomicModel:DenseAdditiveLinearGenomicModel.ntrait|property
+DenseAdditiveLinearGenomicModel:DenseAdditiveLinearGenomicModel.copy|self
+DenseAdditiveLinearGenomicModel:DenseAdditiveLinearGenomicModel.deepcopy|self,memo
+DenseAdditiveLinearGenomicModel:DenseAdditiveLinearGenomicModel.fit_numpy|cls,Y,X,Z,kwargs
+DenseAdditiveLinearGenomicModel:DenseAdditiveLinearGenomicModel.fit|cls,ptobj,cvobj,gtobj,kwargs
+DenseAdditiveLinearGenomicModel:DenseAdditiveLinearGenomicModel.predict_numpy|self,X,Z,kwargs
+DenseAdditiveLinearGenomicModel:DenseAdditiveLinearGenomicModel.predict|self,cvobj,gtobj,kwargs
+DenseAdditiveLinearGenomicModel:DenseAdditiveLinearGenomicModel.score_numpy|self,Y,X,Z,kwargs
+DenseAdditiveLinearGenomicModel:DenseAdditiveLinearGenomicModel.score|self,ptobj,cvobj,gtobj,kwargs
+DenseAdditiveLinearGenomicModel:DenseAdditiveLinearGenomicModel.gebv_numpy|self,Z,kwargs
+DenseAdditiveLinearGenomicModel:DenseAdditiveLinearGenomicModel.gebv|self,gtobj,kwargs
+DenseAdditiveLinearGenomicModel:DenseAdditiveLinearGenomicModel.gegv_numpy|self,Z,kwargs
+DenseAdditiveLinearGenomicModel:DenseAdditiveLinearGenomicModel.gegv|self,gtobj,kwargs
+DenseAdditiveLinearGenomicModel:DenseAdditiveLinearGenomicModel.var_G_numpy|self,Z,kwargs
+DenseAdditiveLinearGenomicModel:DenseAdditiveLinearGenomicModel.var_G|self,gtobj,kwargs
+DenseAdditiveLinearGenomicModel:DenseAdditiveLinearGenomicModel.var_A_numpy|self,Z,kwargs
+DenseAdditiveLinearGenomicModel:DenseAdditiveLinearGenomicModel.var_A|self,gtobj,kwargs
+DenseAdditiveLinearGenomicModel:DenseAdditiveLinearGenomicModel.var_a_numpy|self,p,ploidy,kwargs
+DenseAdditiveLinearGenomicModel:DenseAdditiveLinearGenomicModel.var_a|self,gtobj,ploidy,kwargs
+DenseAdditiveLinearGenomicModel:DenseAdditiveLinearGenomicModel.bulmer_numpy|self,Z,p,ploidy,kwargs
+DenseAdditiveLinearGenomicModel:DenseAdditiveLinearGenomicModel.bulmer|self,gtobj,ploidy,kwargs
+DenseAdditiveLinearGenomicModel:DenseAdditiveLinearGenomicModel.usl_numpy|self,p,ploidy,unscale,kwargs
+DenseAdditiveLinearGenomicModel:DenseAdditiveLinearGenomicModel.usl|self,gtobj,ploidy,unscale,kwargs
+DenseAdditiveLinearGenomicModel:DenseAdditiveLinearGenomicModel.lsl_numpy|self,p,ploidy,unscale,kwargs
+DenseAdditiveLinearGenomicModel:DenseAdditiveLinearGenomicModel.lsl|self,gtobj,ploidy,unscale,kwargs
+DenseAdditiveLinearGenomicModel:DenseAdditiveLinearGenomicModel.facount|self,gmat,dtype,kwargs
+DenseAdditiveLinearGenomicModel:DenseAdditiveLinearGenomicModel.fafreq|self,gmat,dtype,kwargs
+DenseAdditiveLinearGenomicModel:DenseAdditiveLinearGenomicModel.faavail|self,gmat,dtype,kwargs
+DenseAdditiveLinearGenomicModel:DenseAdditiveLinearGenomicModel.fafixed|self,gmat,dtype,kwargs
+DenseAdditiveLinearGenomicModel:DenseAdditiveLinearGenomicModel.fapoly|self,gmat,dtype,kwargs
+DenseAdditiveLinearGenomicModel:DenseAdditiveLinearGenomicModel.nafixed|self,gmat,dtype,kwargs
+DenseAdditiveLinearGenomicModel:DenseAdditiveLinearGenomicModel.napoly|self,gmat,dtype,kwargs
+DenseAdditiveLinearGenomicModel:DenseAdditiveLinearGenomicModel.dacount|self,gmat,dtype,kwargs
+DenseAdditiveLinearGenomicModel:DenseAdditiveLinearGenomicModel.dafreq|self,gmat,dtype,kwargs
+DenseAdditiveLinearGenomicModel:DenseAdditiveLinearGenomicModel.daavail|self,gmat,dtype,kwargs
+DenseAdditiveLinearGenomicModel:DenseAdditiveLinearGenomicModel.dafixed|self,gmat,dtype,kwargs
+DenseAdditiveLinearGenomicModel:DenseAdditiveLinearGenomicModel.dapoly|self,gmat,dtype,kwargs
+DenseAdditiveLinearGenomicModel:DenseAdditiveLinearGenomicModel.to_pandas_dict|self,trait_cols,kwargs
+DenseAdditiveLinearGenomicModel:DenseAdditiveLinearGenomicModel.to_csv_dict|self,filenames,trait_cols,sep,header,index,kwargs
+DenseAdditiveLinearGenomicModel:DenseAdditiveLinearGenomicModel.to_hdf5|self,filename,groupname,overwrite
+DenseAdditiveLinearGenomicModel:DenseAdditiveLinearGenomicModel.from_pandas_dict|cls,dic,trait_cols,model_name,hyperparams,kwargs
+DenseAdditiveLinearGenomicModel:DenseAdditiveLinearGenomicModel.from_csv_dict|cls,filenames,sep,header,trait_cols,model_name,hyperparams,kwargs
+DenseAdditiveLinearGenomicModel:DenseAdditiveLinearGenomicModel.from_hdf5|cls,filename,groupname
+DenseAdditiveLinearGenomicModel:check_is_DenseAdditiveLinearGenomicModel|v,vname
+DenseAdditiveDominanceLinearGenomicModel:DenseAdditiveDominanceLinearGenomicModel.__init__|self,beta,u_misc,u_a,u_d,trait,model_name,hyperparams,kwargs
+DenseAdditiveDominanceLinearGenomicModel:DenseAdditiveDominanceLinearGenomicModel.__copy__|self
+DenseAdditiveDominanceLinearGenomicModel:DenseAdditiveDominanceLinearGenomicModel.__deepcopy__|self,memo
+DenseAdditiveDominanceLinearGenomicModel:DenseAdditiveDominanceLinearGenomicModel.nexplan|property
+DenseAdditiveDominanceLinearGenomicModel:DenseAdditiveDominanceLinearGenomicModel.nparam|property
+DenseAdditiveDominanceLinearGenomicModel:DenseAdditiveDominanceLinearGenomicModel.nexplan_u|property
+DenseAdditiveDominanceLinearGenomicModel:DenseAdditiveDominanceLinearGenomicModel.nparam_u|property
+DenseAdditiveDominanceLinearGenomicModel:DenseAdditiveDominanceLinearGenomicModel.u|property+setter
+DenseAdditiveDominanceLinearGenomicModel:DenseAdditiveDominanceLinearGenomicModel.nexplan_u_d|property
+DenseAdditiveDominanceLinearGenomicModel:DenseAdditiveDominanceLinearGenomicModel.nparam_u_d|property
+DenseAdditiveDominanceLinearGenomicModel:DenseAdditiveDominanceLinearGenomicModel.u_d|property+setter
+DenseAdditiveDominanceLinearGenomicModel:DenseAdditiveDominanceLinearGenomicModel.copy|self
+DenseAdditiveDominanceLinearGenomicModel:DenseAdditiveDominanceLinearGenomicModel.deepcopy|self,memo
+DenseAdditiveDominanceLinearGenomicModel:DenseAdditiveDominanceLinearGenomicModel.fit_numpy|cls,Y,X,Z,kwargs
+DenseAdditiveDominanceLinearGenomicModel:DenseAdditiveDominanceLinearGenomicModel.fit|cls,ptobj,cvobj,gtobj,kwargs
+DenseAdditiveDominanceLinearGenomicModel:DenseAdditiveDominanceLinearGenomicModel.predict_numpy|self,X,Z,kwargs
+DenseAdditiveDominanceLinearGenomicModel:DenseAdditiveDominanceLinearGenomicModel.predict|self,cvobj,gtobj,ploidy,kwargs
+DenseAdditiveDominanceLinearGenomicModel:DenseAdditiveDominanceLinearGenomicModel.score_numpy|self,Y,X,Z,kwargs
+DenseAdditiveDominanceLinearGenomicModel:DenseAdditiveDominanceLinearGenomicModel.score|self,ptobj,cvobj,gtobj,ploidy,kwargs
+DenseAdditiveDominanceLinearGenomicModel:DenseAdditiveDominanceLinearGenomicModel.gegv_numpy|self,Z,kwargs
+DenseAdditiveDominanceLinearGenomicModel:DenseAdditiveDominanceLinearGenomicModel.gegv|self,gtobj,ploidy,kwargs
+DenseAdditiveDominanceLinearGenomicModel:DenseAdditiveDominanceLinearGenomicModel.var_G_numpy|self,Z,kwargs
+DenseAdditiveDominanceLinearGenomicModel:DenseAdditiveDominanceLinearGenomicModel.var_G|self,gtobj,ploidy,kwargs
+DenseAdditiveDominanceLinearGenomicModel:DenseAdditiveDominanceLinearGenomicModel.to_pandas_dict|self,trait_cols,kwargs
+DenseAdditiveDominanceLinearGenomicModel:DenseAdditiveDominanceLinearGenomicModel.to_csv_dict|self,filenames,trait_cols,sep,header,index,kwargs
+DenseAdditiveDominanceLinearGenomicModel:DenseAdditiveDominanceLinearGenomicModel.to_hdf5|self,filename,groupname,overwrite
+DenseAdditiveDominanceLinearGenomicModel:DenseAdditiveDominanceLinearGenomicModel.from_pandas_dict|cls,dic,trait_cols,model_name,hyperparams,kwargs
+DenseAdditiveDominanceLinearGenomicModel:DenseAdditiveDominanceLinearGenomicModel.from_csv_dict|cls,filenames,sep,header,trait_cols,model_name,hyperparams,kwargs
+DenseAdditiveDominanceLinearGenomicModel:DenseAdditiveDominanceLinearGenomicModel.from_hdf5|cls,filename,groupname
+DenseAdditiveDominanceLinearGenomicModel:check_is_DenseAdditiveDominanceLinearGenomicModel|v,vname
+rrBLUPModel0:rrBLUP_ML0_calc_G|Z
+rrBLUPModel0:rrBLUP_ML0_center_y|y
+rrBLUPModel0:rrBLUP_ML0_calc_d_V|G
+rrBLUPModel0:rrBLUP_ML0_nonzero_d_V|d,V,tol
+rrBLUPModel0:rrBLUP_ML0_calc_etasq|V,y
+rrBLUPModel0:rrBLUP_ML0_neg2LogLik_fast|logVarComp,etasq,d,n
+rrBLUPModel0:rrBLUP_ML0_calc_ridge|varE,varU
+rrBLUPModel0:rrBLUP_ML0_calc_ZtZplI|Z,ridge
+rrBLUPModel0:rrBLUP_ML0_calc_Zty|Z,y
+rrBLUPModel0:gauss_seidel|A,b,atol,maxiter
+rrBLUPModel0:rrBLUP_ML0|y,Z,varlb,varub,gsatol,gsmaxiter
+rrBLUPModel0:rrBLUPModel0.__init__|self,beta,u_misc,u_a,trait,method,model_name,hyperparams,kwargs
+rrBLUPModel0:rrBLUPModel0.__copy__|self
+rrBLUPModel0:rrBLUPModel0.__deepcopy__|self,memo
+rrBLUPModel0:rrBLUPModel0.method|property+setter
+rrBLUPModel0:rrBLUPModel0.copy|self
+rrBLUPModel0:rrBLUPModel0.deepcopy|self,memo
+rrBLUPModel0:rrBLUPModel0.fit_numpy|cls,Y,X,Z,trait,method,model_name,hyperparams,kwargs
+rrBLUPModel0:rrBLUPModel0.fit|cls,ptobj,cvobj,gtobj,trait,method,model_name,hyperparams,kwargs
+rrBLUPModel0:check_is_rrBLUPModel0|v,vname
+DenseGenomicEstimatedBreedingValueMatrix:DenseGenomicEstimatedBreedingValueMatrix.__init__|self,mat,location,scale,taxa,taxa_grp,trait,kwargs
+DenseGenomicEstimatedBreedingValueMatrix:check_is_DenseGenomicEstimatedBreedingValueMatrix|v,vname
+TrueBreedingValue:TrueBreedingValue.__init__|self,gpmod,kwargs
+TrueBreedingValue:TrueBreedingValue.gpmod|property+setter
+TrueBreedingValue:TrueBreedingValue.estimate|self,ptobj,gtobj,miscout,kwargs
+"""
+
+def _enumerate_entry_points():
+    import inspect, importlib
+    def params(f):
+        return ",".join(inspect.signature(f).parameters)
+    lines = []
+    for mn in ANCHOR_MODULES:
+        mod = importlib.import_module(mn)
+        short = mn.split(".")[-1]
+        for name, obj in vars(mod).items():
+            if getattr(obj, "__module__", None) != mn: continue
+            if inspect.isfunction(obj) and not name.startswith("_"):
+                lines.append("%s:%s|%s" % (short, name, params(obj)))
+            elif inspect.isclass(obj) and not name.startswith("_"):
+                for k, v in obj.__dict__.items():
+                    if k.startswith("_") and k not in ("__init__", "__copy__", "__deepcopy__"): continue
+                    if isinstance(v, property): lines.append("%s:%s.%s|property%s" % (short, name, k, "+setter" if v.fset else ""))
+                    elif isinstance(v, (classmethod, staticmethod)): lines.append("%s:%s.%s|%s" % (short, name, k, params(v.__func__)))
+                    elif inspect.isfunction(v): lines.append("%s:%s.%s|%s" % (short, name, k, params(v)))
+    return lines
+
+def audit_entry_points():
+    """every public class, function, method, property and parameter list of the anchored modules is either driven by run_impl or
+    listed in SKIPPED with a reason; a name or signature that is new, changed or gone makes the check fail until it is classified"""
+    import re
+    now = _enumerate_entry_points()
+    known = [l for l in ENTRY_POINTS.strip().splitlines() if l.strip()]
+    new = sorted(set(now) - set(known)); gone = sorted(set(known) - set(now))
+    if new or gone:
+        raise RuntimeError("entry points of the anchored modules changed; classify them in harness/props/c04.py (ENTRY_POINTS/COVERED/SKIPPED): new or changed %s; gone %s"
+                           % (new[:8], gone[:8]))
+    summary = {"covered": 0, "skipped": 0}
+    for l in now:
+        member = l.split("|")[0].split(":", 1)[1]
+        if any(re.search(rx, member) for rx, _ in SKIPPED): summary["skipped"] += 1
+        elif any(re.search(rx, member) for rx, _ in COVERED): summary["covered"] += 1
+        else: raise RuntimeError("entry point %s is neither driven nor listed as skipped" % l)
+    return summary
+
+
+def translate(repo, gen_dir):
+    """regenerate Gen/C04_Kernel.v (kernel expressions of the allele tables, the dominance design, the predictions, the variance /
+    Bulmer / score formulas, gauss_seidel and the non-numerical parts of rrBLUPModel0.fit_numpy) from the current source; fail closed"""
+    from translate import c04_kernel
+    info = c04_kernel.translate(repo, gen_dir)
+    info["entry_points"] = audit_entry_points()
+    return [info]
